@@ -29,7 +29,7 @@ class Scenario:
     def __init__(self, plan: dict, ch: Chooser) -> None:
         self.plan = plan
         self.ctx = Ctx(ch)
-        self.loop = SimLoop(max_iterations=plan.get("max_iterations", 400_000))
+        self.loop = SimLoop(max_iterations=plan.get("max_iterations", 60_000))
         self.w = IpWorld(self.ctx, self.loop, plan.get("profile", {}))
         self.w.acc.tag_reads = plan.get("tag_reads", True)
         self.calls: list[dict] = []
@@ -56,6 +56,7 @@ class Scenario:
         self.burst = None
         self.event_token = 0
         self.fatal: str | None = None
+        self.resp_range: dict[int, tuple] = {}
         self.tainted: set[int] = set()  # connections that carried an injected unsolicited response
         self.unsolicited: list[dict] = []
 
@@ -72,6 +73,7 @@ class Scenario:
             ctx.violate("C10.busy-loop", "step-limit", f"run exceeded the loop-iteration cap (busy loop?): {e}")
         finally:
             w.finish()
+        ctx.probe("max_loop_iterations_bucket_%d" % min(6, len(str(loop._iterations))))
         return ctx
 
     async def _main(self) -> None:
@@ -199,9 +201,10 @@ class Scenario:
             host = conn.sock.peer[0]
             exp_host = f"Host: [{host}]" if ":" in host else f"Host: {host}"
             if r.raw.split(b"\r\n")[1:2] != [exp_host.encode()]:
-                probs.append(f"Host header {r.raw.split(b'\r\n')[1:2]!r} != {exp_host!r} for peer {host}")
+                probs.append(f"host-mismatch|Host header {r.raw.split(b'\r\n')[1:2]!r} != {exp_host!r} for peer {host}")
             for pr in probs:
-                ctx.violate("C09.canonical", pr.split(":")[0][:40], f"conn {conn.no} {r.method} {r.target}: {pr}")
+                code, _, text = pr.partition("|")
+                ctx.violate("C09.canonical", code, f"conn {conn.no} {r.method} {r.target[:80]}: {text}")
             rec = {"conn": conn.no, "t": self.loop.time(), "method": r.method, "target": r.target, "body": r.body,
                    "secure": secure, "call": None, "raw_len": len(r.raw)}
             self.wire.append(rec)
@@ -257,6 +260,8 @@ class Scenario:
         if self.burst is not None and kind == "event":
             self.burst.append(data)
             return
+        if serial is not None:
+            self.resp_range[serial] = (conn.no, conn.queued_a2c, conn.queued_a2c + len(data))
         self.w._orig_out(session, data, kind, serial)
 
     def _corrupt(self, conn, data: bytes, spec: dict) -> bytes:
@@ -299,12 +304,14 @@ class Scenario:
             self.event_token += 1
             tok = -self.event_token  # negative: cannot collide with tagged read values
             chars = [(a, i, tok) for a, i in op.get("ids", [[1, 10]])]
+            if op.get("pad"):
+                chars.append((2, 33, "p" * op["pad"] + str(tok)))
             raw = None
             if op.get("raw") == "empty":
                 raw = b""
             elif op.get("raw") == "nonjson":
                 raw = b"<html>not json</html>"
-            rec = {"token": tok, "chars": chars, "conn": conn.no, "t_sent": self.loop.time(), "valid": raw is None,
+            rec = {"token": tok, "chars": chars, "conn": conn.no, "pad": op.get("pad"), "t_sent": self.loop.time(), "valid": raw is None,
                    "end_offset": None, "delivered": False, "listeners": None}
             if self.burst is None:
                 sess.send_event(chars, raw)
@@ -572,6 +579,19 @@ class Scenario:
             if t1 > rec["t_written"] + 30.0 + TOL:
                 ctx.violate("C08.late-completion", "after-30s",
                             f"call #{rec['no']} completed {t1 - rec['t_written']:.3f}s after its request was written (limit 30s)")
+        if self.plan.get("check_values") and rec["outcome"] == "ok":
+            acc = self.w.acc
+            if rec["op"] == "get":
+                for key in rec["ids"]:
+                    got = rec["result"].get(key, {}).get("value", "<absent>")
+                    if got != acc.values.get(key):
+                        ctx.violate("C05.inbound-content", "read-value",
+                                    f"call #{rec['no']}: value of {key} differs from what the accessory sent (len {len(str(got))} vs {len(str(acc.values.get(key)))})")
+            elif rec["op"] == "put":
+                for a, i, v in rec["items"]:
+                    if acc.values.get((a, i)) != v:
+                        ctx.violate("C05.outbound-content", "written-value",
+                                    f"call #{rec['no']}: accessory decoded a different value for {(a, i)} than the caller wrote (len {len(str(v))})")
         if conn_no is not None:
             tl = self.w.net.conns[conn_no].t_lost_cb
             if tl is not None and rec["t_written"] <= tl and t1 > tl + TOL:
@@ -641,10 +661,10 @@ class Scenario:
                     ctx.violate("C11.open-after-close", cl["kind"],
                                 f"{cl['kind']}() returned at t={cl['t1']:.3f} but connection(s) {[c.no for c in open_conns]} are still open")
         # abandoned connections must be closed by the controller promptly
-        for no, t in self.abandoned.items():
-            c = w.net.conns[no]
-            if c.client_open and now > t + TOL:
-                ctx.violate("C08.not-abandoned", "", f"connection {no} had a failed/cancelled/timed-out request at t={t:.3f} but is still open at t={now:.3f}")
+        for c in open_conns:
+            t = self.abandoned.get(c.no)
+            if t is not None and now > t + TOL:
+                ctx.violate("C08.not-abandoned", "", f"connection {c.no} had a failed/cancelled/timed-out request at t={t:.3f} but is still open at t={now:.3f}")
         ctx.state("idle", len(open_conns), cur is not None, bool(w.pairing.connection.is_connected), self.in_attempt,
                   bool(w.pairing.connection.closing), sum(1 for c in self.calls if c["t1"] is None))
 
@@ -659,7 +679,18 @@ class Scenario:
         if conn is None:
             return
         sess = conn.server
-        desired = set(self.sub_started) - set(self.unsub_started)
+        # ids the connector itself is responsible for: subscribed by a call that had completed before
+        # this attempt began and not touched by any unsubscribe call that was still running / started
+        # after that subscribe began.  (Calls still in flight send their own request.)
+        now = self.loop.time()
+        t_attempt = self.attempts[-1]["t0"] if self.attempts else now
+        desired = set()
+        for sc_ in self.calls:
+            if sc_["op"] != "subscribe" or sc_["t1"] is None or sc_["t1"] > t_attempt:
+                continue
+            for ident in sc_["ids"]:
+                if not any(u["op"] == "unsubscribe" and ident in u["ids"] and (u["t1"] is None or u["t1"] >= sc_["t0"] - TOL) for u in self.calls):
+                    desired.add(ident)
         # a subscribe request cut off by a disconnection legitimately switches the library to polling
         for wr in self.wire:
             if wr["method"] == "PUT" and b'"ev":true' in wr["body"]:
@@ -733,12 +764,21 @@ class Scenario:
                     if isinstance(val, int) and val < 0:
                         got.append((val, k))
             exp_tokens = per_listener_expected[n]
+            if l["self_remove"]:
+                exp_tokens = exp_tokens[:1]  # it unregisters itself while handling its first event
             ctx.obligations += 1
             # keyed by accessory and instance id
             for ev in self.events:
+                if ev["delivered"] and ev["valid"] and ev.get("pad") and n in (ev["listeners"] or []) and not any(
+                        c["conn"] == ev["conn"] and c["frame_start"] < ev["end_offset"] for c in self.corrupted):
+                    want = ev["chars"][-1][2]
+                    gotpad = [e.get("2.33", {}).get("value") for t, e in l["log"] if any(isinstance(v, dict) and v.get("value") == ev["token"] for v in e.values())]
+                    if gotpad != [want]:
+                        ctx.violate("C05.inbound-content", "event-value", f"listener {n}: padded event {ev['token']} content differs (got {len(gotpad)} deliveries)")
+            for ev in self.events:
                 if ev["delivered"] and ev["valid"] and n in (ev["listeners"] or []):
                     keys_got = sorted(k for tok, k in got if tok == ev["token"])
-                    keys_exp = sorted(f"{a}.{i}" for a, i, _ in ev["chars"])
+                    keys_exp = sorted(f"{a}.{i}" for a, i, v in ev["chars"] if isinstance(v, int))
                     if keys_got and keys_got != keys_exp:
                         ctx.violate("C12.event-keys", "", f"listener {n}: event {ev['token']} delivered under {keys_got}, sent for {keys_exp}")
             got_tokens = []
@@ -777,10 +817,19 @@ class Scenario:
                     for n, l in self.listeners.items():
                         if any(isinstance(v, dict) and v.get("value") == ev["token"] for t, e in l["log"] for v in e.values()):
                             ctx.violate("C05.corrupt-delivered", c["where"], f"event {ev['token']} at/after a corrupted frame reached listener {n}")
-            for call in self.calls:
-                if call["conn"] == c["conn"] and call["outcome"] == "ok" and call["t1"] >= (c["t_full"] or 1e18) - TOL and call["t_written"] is not None \
-                        and call["t_written"] <= c["t"] + TOL:
-                    ctx.violate("C05.corrupt-delivered", c["where"], f"call #{call['no']} completed normally from a corrupted frame stream on conn {conn.no}")
+            # map calls to the accessory's responses: i-th secure request written on the connection
+            # is the i-th secure request the accessory session parsed
+            sess = conn.server
+            wires = [wr for wr in self.wire if wr["conn"] == conn.no and wr["secure"]]
+            entries = [e for e in self.w.acc.request_log if e["session"] == sess.no and e["secure"]]
+            for wr, ent in zip(wires, entries):
+                rng = self.resp_range.get(ent["serial"])
+                if rng is None or wr["call"] is None:
+                    continue
+                call = self.calls[wr["call"]]
+                if rng[2] > c["frame_start"] and call["outcome"] == "ok":
+                    ctx.violate("C05.corrupt-delivered", c["where"],
+                                f"call #{call['no']} completed normally although its response (stream bytes {rng[1]}..{rng[2]}) lies at/after the corrupted frame at {c['frame_start']} on conn {conn.no}")
             if c["where"] in ("ct", "tag") and c["t_full"] is not None:
                 if conn.client_open or (conn.t_client_closed is not None and conn.t_client_closed > c["t_full"] + TOL):
                     ctx.violate("C05.corrupt-not-closed", c["where"],
